@@ -50,7 +50,7 @@ func (t *c17tag) NoteFault(kind string) {
 	}
 }
 
-var c17failKinds = []string{"http-conn-err", "http-status-5xx", "http-status-404", "http-ignores-range", "http-short-body", "http-latency"}
+var c17failKinds = []string{"http-conn-err", "http-status-5xx", "http-status-404", "http-ignores-range", "http-short-body", "http-short-clean", "http-latency"}
 
 func scenarioC17(x *runner.X) {
 	t := x.Tape
